@@ -379,6 +379,12 @@ theorem axis_preserved (sh : C15.Shape) (h1 : sh.rate = .field .rate) (h2 : sh.t
 theorem axis_comp_all (a b : AxisD) : a.comp b = ⟨true, true, true⟩ ↔ a = ⟨true, true, true⟩ ∧ b = ⟨true, true, true⟩ := by
   cases a; cases b; simp [AxisD.comp]; tauto
 
+/-- on the CURRENT source every filtering method forwards rate, start time and unit (decided on the
+generated descriptors; re-checked whenever the translator output changes) -/
+theorem axis_all_methods :
+    ["fir", "iir", "filtered_fourier", "filtered_boxcar"].map methodAxis
+      = List.replicate 4 (some ⟨true, true, true⟩) := by decide
+
 /-- non-vacuity -/
 example : firPlan (10 : Rat) 1 (some 4) 8 40 = .ok (9, some (4/5), some (1/5)) := by decide +kernel
 example : firPlan (10 : Rat) 1 (some 6) 8 40 = .error .valueError := by decide +kernel
